@@ -377,6 +377,25 @@ fn compile_direct(
     }
 }
 
+/// Write an include file the way timestamp-preserving tools do (cp -p, rsync -t, tar, a
+/// checkout that restores mtimes): whatever the contents, the modification time is the same.
+fn write_stamped(path: &str, content: &str) {
+    let _ = std::fs::write(path, content);
+    if let Ok(c) = std::ffi::CString::new(path) {
+        let ts = [
+            libc::timespec {
+                tv_sec: 1_600_000_000,
+                tv_nsec: 0,
+            },
+            libc::timespec {
+                tv_sec: 1_600_000_000,
+                tv_nsec: 0,
+            },
+        ];
+        unsafe { libc::syscall(libc::SYS_utimensat, libc::AT_FDCWD, c.as_ptr(), ts.as_ptr(), 0) };
+    }
+}
+
 /// The Python binding's `compile`; None when this build has no binding.
 fn compile_py(text: &str, search: &[String]) -> Option<Compiled> {
     let r = crate::pybind::compile(text, search)?;
@@ -592,7 +611,7 @@ fn run_compile_op(
         let dir = format!("r/inc/t{}{}", actor.id, if nested { "n" } else { "" });
         let _ = std::fs::create_dir_all(&dir);
         for (name, content) in prog.files.iter() {
-            let _ = std::fs::write(format!("{}/{}", dir, name), content);
+            write_stamped(&format!("{}/{}", dir, name), content);
         }
         vec![dir]
     };
@@ -1017,7 +1036,13 @@ pub fn generate(rng: &mut Rng, thorough: bool) -> Workload {
             let src = *rng.pick(&cands);
             let mut twin = progs[src].clone();
             let fi = rng.below(twin.files.len() as u64) as usize;
-            let edited = match gen_prog::near_twin(&twin.files[fi].1, rng) {
+            // half of the edits keep the file's length (one digit becomes another)
+            let structural = if rng.chance(1, 2) {
+                gen_prog::near_twin(&twin.files[fi].1, rng)
+            } else {
+                None
+            };
+            let edited = match structural {
                 Some(t) => Some(t),
                 None => {
                     // change the first number in the file
@@ -1484,7 +1509,7 @@ pub fn run_one(w: &Workload, tape: &mut Tape, entropy_seed: u64) -> Result<RunRe
         for (name, content) in p.files.iter() {
             for dir in p.search.iter().filter(|d| d.starts_with("r/")) {
                 let _ = std::fs::create_dir_all(dir);
-                let _ = std::fs::write(format!("{}/{}", dir, name), content);
+                write_stamped(&format!("{}/{}", dir, name), content);
             }
         }
     }
